@@ -3,6 +3,7 @@ from __future__ import annotations
 import ast, re
 from ..frontend import AnalysisError, src, walk_no_nested
 from ..symx import run_paths
+from ..pathcond import scenario_decide
 from ..lin import Form, Lin
 
 MANIFEST = {
@@ -125,6 +126,10 @@ def run(ctx):
         f = prog.method(cname, '__new__', rel=rel)
         caches = {t.id for n in walk_no_nested(f.node) if isinstance(n, ast.Assign) and src(n.value).endswith('._cached') for t in n.targets if isinstance(t, ast.Name)}
         knames = {src(n.left) for n in walk_no_nested(f.node) if isinstance(n, ast.Compare) and isinstance(n.ops[0], (ast.In, ast.NotIn)) and src(n.comparators[0]) in caches}
+        # ... or the key used to look the instance up: <cache>.get(key) / <cache>[key]
+        knames |= {src(n.args[0]) for n in walk_no_nested(f.node) if isinstance(n, ast.Call) and isinstance(n.func, ast.Attribute) and n.func.attr in ('get', 'setdefault')
+                   and src(n.func.value) in caches and n.args}
+        knames |= {src(n.slice) for n in walk_no_nested(f.node) if isinstance(n, ast.Subscript) and src(n.value) in caches}
         key = [n for n in walk_no_nested(f.node) if isinstance(n, ast.Assign) and src(n.targets[0]) in knames]
         if not key or not isinstance(key[0].value, ast.Tuple):
             d4.fail('%s.__new__' % cname, 'no-key', 'cache key not found', f, f.node)
@@ -148,18 +153,42 @@ def run(ctx):
             d4.fail('%s.__new__' % cname, 'key-normalisation', 'chemicals are not normalised to a tuple before keying', f, f.node)
 
 
+def _scenario_atom(conv_given):
+    """atoms of the scenario 'several components, temperature inside the domain, conversion (not) given'"""
+    def atom(t):
+        if isinstance(t, ast.Compare) and len(t.ops) == 1:
+            a, b, op = t.left, t.comparators[0], t.ops[0]
+            if isinstance(op, ast.Eq) and isinstance(b, ast.Constant) and b.value in (0, 1) and not isinstance(b.value, bool):
+                return False                      # N == 0 / N == 1: not the multi-component case
+            if isinstance(op, (ast.Is, ast.IsNot)) and isinstance(b, ast.Constant) and b.value is None and 'conversion' in src(a):
+                return (not conv_given) if isinstance(op, ast.Is) else conv_given
+            if isinstance(op, (ast.Gt, ast.Lt, ast.GtE, ast.LtE)) and src(a) == 'T' and src(b) in ('self.Tmax', 'self.Tmin'):
+                return False                      # T already inside [Tmin, Tmax]
+        if isinstance(t, ast.Name) and 'conversion' in t.id:
+            return conv_given
+        return None
+    return atom
+
+
+_no_conversion_atom = _scenario_atom(False)
+_with_conversion_atom = _scenario_atom(True)
+
+
+def _summand_arg(gp, e):
+    """the quantity handed to the inner composition solve: the first argument that is not the buffer the result is stored into
+    (solve_y(y_phi, ...), self._solve_x(x_gamma, ..., x), solve_x(x_guess, x_gamma, ...))"""
+    buf = e.target[:-4]
+    for a in e.stmt.value.args:
+        fm = gp.lin.form(a)
+        if fm != Form.atom(buf) and src(a) != buf:
+            return fm
+    return gp.lin.form(e.stmt.value.args[0])
+
+
 def homogeneity(ctx, d2, prog, f, cname, mname, rel):
     cons = '%s.%s' % (cname, mname)
 
-    def decide(t, st):
-        s = src(t)
-        if isinstance(t, ast.Compare) and isinstance(t.ops[0], ast.Eq) and isinstance(t.comparators[0], ast.Constant) and t.comparators[0].value in (0, 1):
-            return False
-        if 'conversion is None' in s:
-            return True
-        if s.startswith('T >') or s.startswith('T <'):
-            return False
-        return None
+    decide = scenario_decide(_no_conversion_atom)
     ps, _ = run_paths(f.node, decide=decide, follow_except=False)
     ps = [p for p in ps if not p.raised]
     if not ps:
@@ -197,7 +226,7 @@ def homogeneity(ctx, d2, prog, f, cname, mname, rel):
     for e in gp.events:
         # the quantity handed to the inner composition solve whose result is stored into the composition buffer
         if e.kind == 'store' and e.target.endswith('[::]') and isinstance(e.stmt.value, ast.Call) and e.stmt.value.args:
-            yv = gp.lin.form(e.stmt.value.args[0])
+            yv = _summand_arg(gp, e)
     if yv is None:
         raise AnalysisError('%s: residual quantity not found' % resid_name)
     total = None
@@ -298,17 +327,7 @@ def raoult_shape(ctx, d5):
     for cname, rel, mname, kind in SOLVERS:
         f = prog.method(cname, mname, rel=rel)
 
-        def decide(t, st):
-            s_ = src(t)
-            if isinstance(t, ast.Compare) and isinstance(t.ops[0], ast.Eq) and isinstance(t.comparators[0], ast.Constant) and t.comparators[0].value in (0, 1):
-                return False
-            if 'conversion is None' in s_:
-                return False
-            if 'conversion' in s_ and isinstance(t, ast.Name):
-                return True
-            if s_.startswith('T >') or s_.startswith('T <'):
-                return False
-            return None
+        decide = scenario_decide(_with_conversion_atom)
         ps, _ = run_paths(f.node, decide=decide, follow_except=False)
         ps = [p for p in ps if not p.raised]
         found = None
@@ -340,7 +359,7 @@ def raoult_shape(ctx, d5):
             if e.kind == 'store' and e.target.endswith('[::]'):
                 v = e.stmt.value
                 if isinstance(v, ast.Call) and v.args and not (isinstance(v.func, ast.Name) and v.func.id in g.params):
-                    yv = gp.lin.form(v.args[0])
+                    yv = _summand_arg(gp, e)
                 elif not isinstance(v, ast.Call):
                     comp.add(e.target[:-4])
         if yv is None or not comp:
@@ -485,7 +504,11 @@ def bracket_rule(ctx, rule):
                     from ..resolve import path_defs
                     v = path_defs(p, e).get(v.id, v)
                 if isinstance(v, ast.Call) and isinstance(v.func, ast.Name) and v.func.id in ('min', 'max') and v.args:
-                    es = {end_of(x) for x in ast.walk(v.args[0]) if isinstance(x, (ast.Name, ast.Attribute))}
+                    from ..resolve import path_defs as _pd
+                    a0 = v.args[0]
+                    if isinstance(a0, ast.Name):
+                        a0 = _pd(p, e).get(a0.id, a0)      # the list of vapour pressures built into a local first
+                    es = {end_of(x) for x in ast.walk(a0) if isinstance(x, (ast.Name, ast.Attribute))}
                     pbs[e.node.attr] = (v.func.id, {x for x in es if x is not None}, e.stmt)
             per_path.append((ends, pbs))
         if not per_path or not all(len({c for c, i, st in ends.values()}) == 1 for ends, pbs in per_path):
